@@ -496,6 +496,13 @@ CORPUS = [
       'cbs': 'TN', 'term': '001'}, 'a Type 1 Tag in the field: the DEP search must not raise, connect() returns None'),
     ({'live': 'dep', 'penv': 't1', 'llcp': {'role': None, 'connect': 1, 'release': 1, 'acm': True, 'brs': 0},
       'cbs': 'TN', 'term': '001'}, 'a Type 1 Tag in the field, both roles, active mode search first'),
+    # the peer sends well-formed but adversarial LLCP PDUs: connect() still returns a documented value, on-release once
+    ({'live': 'llc', 'srv': 1, 'llcp': {'role': 'target', 'connect': 1, 'release': 1}, 'cbs': 'TN', 'term': '0000', 'llcact': 't',
+      'peer': 'D'}, 'AGF with CONNECT PDUs whose service name is not ASCII'),
+    ({'live': 'llc', 'srv': 1, 'llcp': {'role': 'initiator', 'connect': 1, 'release': 1}, 'cbs': 'TN', 'term': '0000', 'llcact': 't',
+      'peer': 'BF'}, 'CONNECT to a listening SAP with non-ASCII / non-UTF-8 service names'),
+    ({'live': 'dep', 'penv': 'rinit', 'srv': 1, 'llcp': {'role': 'target', 'connect': 1, 'release': 1}, 'cbs': 'TN', 'term': '0000',
+      'peer': 'sH'}, 'real NFC-DEP target: AGF with non-UTF-8 service names'),
     # the reader's transport fails in the llcp run loop with each member of the IOError family (Python 3 makes
     # IOError(errno.ETIMEDOUT) a TimeoutError, IOError(errno.EPIPE) a BrokenPipeError): connect() returns False
     ({'live': 'llc', 'llcp': {'role': 'initiator', 'connect': 1, 'release': 1}, 'cbs': 'TN', 'term': '00000', 'llcact': 't',
@@ -572,7 +579,7 @@ def main():
         expect.append((res + ' | ' + ' '.join(vis), 'connect/' + kind, case))
         nontrivial = any(e.startswith(('discover:', 'connect:', 'release:', 'tag_activate', 'llc_activate', 'emulate')) for e in vis)
         canon = lines[-1] if not case.get('live') else lines[-1] + ' %s %s %s %s %s' % (
-            case['live'], case.get('ttype') or case.get('penv'), case.get('busy'), case.get('xchg'), case.get('peer')) + \
+            case['live'], case.get('ttype') or case.get('penv'), (case.get('busy'), case.get('srv')), case.get('xchg'), case.get('peer')) + \
             (json.dumps(case.get('llcp'), sort_keys=True) if case.get('live') == 'dep' else '')
         ck.case(canon, nontrivial, None)
         ck.count(kind)
@@ -675,6 +682,21 @@ def main():
                     sk = {'live': 'dep', 'penv': penv, 'llcp': {'role': role, 'connect': 1, 'release': 1, 'acm': acm, 'brs': brs}}
                     for res, ev, case in explore(sk, lim_dep, dom_dep, 60 if quick else 3000):
                         observe_connect('live-dep', res, ev, case)
+    # (e) the scripted peer sends adversarial but well-formed LLCP PDUs into the REAL run loops (dispatch, service
+    #     discovery, connection endpoints, logging of PDUs): CONNECT / SNL SDREQ with non-ASCII, non-UTF-8, NUL, empty
+    #     and known service names (top level, to a listening SAP, inside AGF), DM with reserved reasons, FRMR with every
+    #     flag nibble, PAX mid-link, AGF with zero-length entries, unknown ptypes, connection PDUs without connection
+    adv = ''.join(sorted(S.ADV))
+    lim_adv = dict(LIM_DFS, term=0, cbs=0, llcact=0, xchg=0, peer=2)
+    for live, extra, roles in (('llc', {}, ('initiator', 'target')), ('dep', {'penv': 'f_dep'}, ('initiator',)),
+                               ('dep', {'penv': 'rinit'}, ('target',))):
+        for role in roles:
+            for srv in (1, 0):
+                sk = dict(extra, live=live, srv=srv, llcp={'role': role, 'connect': 1, 'release': 1, 'acm': False, 'brs': 1},
+                          cbs='TT', term='00000', llcact='t', xchg='oo')
+                lim = dict(lim_adv, peer=(2 if live == 'llc' or not quick else 1))
+                for res, ev, case in explore(sk, lim, dict(DOM_DFS, peer='s' + adv), 4000 if quick else 100000):
+                    observe_connect('live-adversarial', res, ev, case)
     # (d) every place where an IOError can reach connect() x every member of the I/O error family
     fam = S.IOCODES
     sites = [({'rdwr': {'targets': 'A', 'connect': 1, 'release': 1, 'iterations': 1}}, {'sense': 'nf' + fam}),
